@@ -130,8 +130,8 @@ def harness_target_dir(profile_release=False):
     return os.path.join(HARNESS, "target-" + repo_tag())
 
 
-def harness_bin(release=False):
-    return os.path.join(harness_target_dir(), "release" if release else "debug", "emlv")
+def harness_bin(pid, release=False):
+    return os.path.join(harness_target_dir(), "release" if release else "debug", "emlv-" + pid)
 
 
 def hooks_available():
@@ -142,12 +142,16 @@ def hooks_available():
         return False
 
 
-def build_harness(release=False):
+def build_harness(pid=None, release=False):
+    """Builds the harness binary of one property (or of all, pid=None) against the checkout under
+    test; one binary per property (harness/src/bin/emlv-Cxx.rs) keeps rebuilds after a change
+    of the checkout small.  Returns the path of the property's binary."""
     with Lock("cargo"):
         with open(os.path.join(HARNESS, "Cargo.toml.in")) as f:
             tmpl = f.read()
         feats = '"verif-hooks"' if hooks_available() else ""
-        text = tmpl.replace("@REPO@", os.path.abspath(REPO)).replace("@FEATURES@", feats)
+        text = (tmpl.replace("@REPO@", os.path.abspath(REPO)).replace("@FEATURES@", feats)
+                .replace("@HFEATURES@", '"hooks"' if feats else ""))
         cargo_toml = os.path.join(HARNESS, "Cargo.toml")
         old = open(cargo_toml).read() if os.path.exists(cargo_toml) else None
         if old != text:
@@ -157,14 +161,15 @@ def build_harness(release=False):
         if not os.path.exists(lock):
             shutil.copy(os.path.join(REPO, "Cargo.lock"), lock)
         cmd = ["cargo", "build", "--offline", "--quiet", "--target-dir", harness_target_dir()]
+        cmd += ["--bin", "emlv-" + pid] if pid else ["--bins"]
         if release:
             cmd.append("--release")
         env = dict(ENV)
         env["RUSTFLAGS"] = env.get("RUSTFLAGS", "") + " -Awarnings"
-        rc, out, err = sh(cmd, cwd=HARNESS, check=False, env=env, timeout=1800)
+        rc, out, err = sh(cmd, cwd=HARNESS, check=False, env=env, timeout=3600)
         if rc != 0:
             raise MachineryError("harness build failed against " + REPO + ":\n" + err[-6000:])
-    return harness_bin(release)
+    return harness_bin(pid, release) if pid else None
 
 
 def lake_build(targets):
@@ -242,14 +247,16 @@ def audit_theorems(pid, module, theorems):
         except Exception:
             pass
     result = {t: {"ok": False, "axioms": [], "why": "not checked"} for t in theorems}
-    rc, logtxt = lake_build([module])
+    modules = module if isinstance(module, list) else [module]
+    rc, logtxt = lake_build(modules)
     if rc != 0:
         for t in theorems:
-            result[t]["why"] = "lake build " + module + " failed"
+            result[t]["why"] = "lake build " + " ".join(modules) + " failed"
         return result, logtxt[-4000:]
     src = os.path.join(WORK, "audit", f"Audit_{pid}.lean")
     with open(src, "w") as f:
-        f.write(f"import {module}\n")
+        for mod in modules:
+            f.write(f"import {mod}\n")
         for t in theorems:
             f.write(f"#print axioms {t}\n")
     with Lock("lake"):
@@ -313,8 +320,11 @@ def segment_of(ops, k):
     return start
 
 
+OWNER = [None]   # the property whose check is running (its work directory owns every scratch file)
+
+
 def rerun_pair(bin_path, pid, lines, tag):
-    d = os.path.join(WORK, pid, "shrink")
+    d = os.path.join(WORK, OWNER[0] or pid, "shrink-" + pid)
     os.makedirs(d, exist_ok=True)
     op = os.path.join(d, tag + ".ops")
     with open(op, "w") as f:
@@ -370,9 +380,9 @@ def shrink_case(bin_path, pid, seg, kind):
     return [first] + middle + [last]
 
 
-def correspondence(pid, reg, tier, seed, bin_path):
+def correspondence(pid, reg, tier, seed, bin_path, wd=None):
     """Generates cases, runs implementation and model, compares.  Returns a result dict."""
-    wd = os.path.join(WORK, pid)
+    wd = wd or os.path.join(WORK, pid)
     os.makedirs(wd, exist_ok=True)
     ops_raw = os.path.join(wd, "ops.txt")
     # corpus (minimised past failures) first
@@ -476,6 +486,7 @@ def load_known(pid):
 
 def write_replay(pid, n, payload):
     os.makedirs(REPLAY, exist_ok=True)
+    payload.setdefault("repo", os.path.abspath(REPO))
     path = os.path.join(REPLAY, f"{pid}-{n}.json")
     with open(path, "w") as f:
         json.dump(payload, f, indent=1)
@@ -484,6 +495,7 @@ def write_replay(pid, n, payload):
 
 def check(pid, tier, seed):
     t0 = time.time()
+    OWNER[0] = pid
     reg = load_registry(pid)
     level = reg.get("level", "proof")
     violations = []   # (line, replay)
@@ -491,6 +503,13 @@ def check(pid, tier, seed):
     assumptions = list(reg.get("assumptions", []))
     coverage = {}
     replay_n = 0
+
+    # --- 0. optional per-property preparation (e.g. C20 regenerates a Lean table from the repo) ---
+    extra = load_extra(pid)
+    if extra is not None and hasattr(extra, "pre"):
+        os.makedirs(os.path.join(WORK, pid), exist_ok=True)
+        extra.pre({"pid": pid, "tier": tier, "seed": seed, "root": ROOT, "repo": REPO, "lean": LEAN,
+                   "work": os.path.join(WORK, pid), "sh": sh, "log": log, "MachineryError": MachineryError})
 
     # --- 1. theorems -------------------------------------------------------------------------
     theorems = reg.get("theorems", [])
@@ -507,15 +526,35 @@ def check(pid, tier, seed):
             thm_failures.append(("<source scan>", "forbidden tokens: " + "; ".join(hits[:5])))
         if build_log and thm_failures:
             log(build_log[-3000:])
+        if tier == "thorough" and not thm_failures:
+            # independent re-check of the compiled proof terms by the toolchain's own checker
+            with Lock("lake"):
+                rc_lc, out_lc, err_lc = sh(["lake", "env", "leanchecker"] +
+                                           (module if isinstance(module, list) else [module]),
+                                           cwd=LEAN, check=False, timeout=3600)
+            coverage["leanchecker"] = "ok" if rc_lc == 0 else (out_lc + err_lc)[-500:]
+            if rc_lc != 0:
+                thm_failures.append(("<leanchecker>", f"leanchecker rejected {module}"))
     rc, out = lake_build(["emlmodel"])
     if rc != 0:
         raise MachineryError("lake build emlmodel failed:\n" + out[-4000:])
 
     # --- 2. correspondence -------------------------------------------------------------------
-    bin_path = build_harness()
+    bin_path = build_harness(pid)
     corr = None
+    corrs = []   # (protocol property, its harness binary, correspondence result)
     if reg.get("protocol", "line") == "line":
         corr = correspondence(pid, reg, tier, seed, bin_path)
+        corrs.append((pid, bin_path, corr))
+    # clauses of this property that are carried by another property's model and correspondence
+    # (e.g. C16's "decompositions on degenerate input" by C08's): run those streams too and
+    # report their disagreements as violations of this property
+    for q in reg.get("also_correspond", []):
+        bq = build_harness(q)
+        # scratch files of a re-run stream live under the claiming property's work directory, so
+        # that checks of different properties can run concurrently
+        corrs.append((q, bq, correspondence(q, load_registry(q), tier, seed, bq,
+                                            wd=os.path.join(WORK, pid, "also-" + q))))
 
     # --- 2b. extra per-property steps ---------------------------------------------------------
     extra_result = None
@@ -523,7 +562,8 @@ def check(pid, tier, seed):
     if extra is not None:
         ctx = {"pid": pid, "tier": tier, "seed": seed, "root": ROOT, "repo": REPO, "work": os.path.join(WORK, pid),
                "bin": bin_path, "sh": sh, "lake_build": lake_build, "lean": LEAN, "env": ENV,
-               "build_harness": build_harness, "model_bin": MODEL_BIN, "log": log, "corr": corr,
+               "build_harness": build_harness, "bin_for": lambda p, release=False: build_harness(p, release),
+               "model_bin": MODEL_BIN, "log": log, "corr": corr,
                "MachineryError": MachineryError, "harness_target_dir": harness_target_dir()}
         os.makedirs(ctx["work"], exist_ok=True)
         extra_result = extra.run(ctx)
@@ -531,14 +571,17 @@ def check(pid, tier, seed):
     # --- 3. verdict --------------------------------------------------------------------------
     known = load_known(pid)
     samples = []
-    if corr is not None:
-        ops = corr["ops_list"]
-        for m in corr["mismatches"]:
+    for proto, proto_bin, corr_i in corrs:
+        ops = corr_i["ops_list"]
+        # concrete failing inputs (obs / crash) are reported before aux-only disagreements
+        corr_i["mismatches"].sort(key=lambda m: (0 if m["kind"] in ("obs", "crash") else 1, m["line"]))
+        reported_here = 0
+        for m in corr_i["mismatches"]:
             k = m["line"]
             s = segment_of(ops, k)
             seg = ops[s:k + 1]
             try:
-                seg_min = shrink_case(bin_path, pid, seg, m["kind"]) if len(seg) > 2 else seg
+                seg_min = shrink_case(proto_bin, proto, seg, m["kind"]) if len(seg) > 2 else seg
             except Exception as e:  # shrinking is best effort
                 seg_min = seg
             case_text = " ; ".join(seg_min)
@@ -551,7 +594,9 @@ def check(pid, tier, seed):
                 known_lines.append(f"KNOWN-FINDING: property={pid} {matched['what']}")
                 continue
             replay_n += 1
-            payload = {"property": pid, "kind": m["kind"], "seed": seed, "tier": tier, "ops": seg_min,
+            reported_here += 1
+            payload = {"property": pid, "protocol_property": proto, "kind": m["kind"], "seed": seed,
+                       "tier": tier, "ops": seg_min,
                        "ops_unshrunk": seg if len(seg) < 200 else seg[-200:],
                        "implementation_answer": m["impl"], "model_answer": m["model"],
                        "replay_cmd": f"python3 verif.py replay replay/{pid}-{replay_n}.json"}
@@ -567,17 +612,20 @@ def check(pid, tier, seed):
                     "The implementation agrees with the specification-level answer but not with the "
                     "code-shaped detail of the model (after `##`): the correspondence stream no longer "
                     "checks, so the theorems no longer speak about this code; no failing input found.")
-                payload["broken"] = f"correspondence stream {pid}, first differing operation shown"
+                payload["broken"] = f"correspondence stream {proto}, first differing operation shown"
                 path = write_replay(pid, replay_n, payload)
                 violations.append(f"VIOLATION property={pid} replay={path} no-failing-input-found")
-            if replay_n >= 5:
+            if reported_here >= 5:
                 break
+        n_s = 0
         for i in range(min(len(ops), 400)):
-            if len(samples) >= 6:
+            if n_s >= (6 if proto == pid else 2):
                 break
-            if i % 67 == 0 or ops[i].startswith("@") and len(samples) < 2:
-                samples.append({"op": ops[i], "implementation": corr["impl"][i] if i < len(corr["impl"]) else None,
-                                "model": corr["model"][i]})
+            if i % 67 == 0 or ops[i].startswith("@") and n_s < 2:
+                n_s += 1
+                samples.append({"op": ops[i], "protocol": proto,
+                                "implementation": corr_i["impl"][i] if i < len(corr_i["impl"]) else None,
+                                "model": corr_i["model"][i]})
 
     if extra_result:
         for v in extra_result.get("violations", []):
@@ -628,6 +676,14 @@ def check(pid, tier, seed):
         coverage["answer_kinds"] = corr.get("answer_kinds", {})
         coverage["corpus_lines_run_first"] = corr["corpus_lines"]
         coverage["rule"] = reg.get("rule", "")
+    for proto, _b, corr_i in corrs:
+        if proto != pid:
+            for k in ("evaluations", "traces_validated_against_impl", "programs"):
+                coverage[k] = coverage.get(k, 0) + (corr_i["ops"] if k == "evaluations" else corr_i["segments"])
+            coverage["distinct_nontrivial"] = coverage.get("distinct_nontrivial", 0) + corr_i.get("distinct", 0)
+            coverage["disagreements_checked"] = coverage.get("disagreements_checked", 0) + len(corr_i["mismatches"])
+            coverage.setdefault("also_corresponded", {})[proto] = {
+                "operations": corr_i["ops"], "cases": corr_i["segments"], "mismatches": len(corr_i["mismatches"])}
     if extra_result:
         for k, v in extra_result.get("coverage", {}).items():
             if k in ("evaluations", "distinct_nontrivial", "traces_validated_against_impl", "programs",
@@ -641,8 +697,11 @@ def check(pid, tier, seed):
     ev = {"property_id": pid, "tier": tier, "seed": seed, "level": level, "coverage": coverage,
           "assumptions": assumptions, "wall_s": round(time.time() - t0, 2), "violations": len(violations),
           "known_findings_reported": len(known_lines), "repo": os.path.abspath(REPO)}
-    os.makedirs(EVIDENCE, exist_ok=True)
-    with open(os.path.join(EVIDENCE, pid + ".json"), "w") as f:
+    # evidence under /verif/evidence is only ever written by runs against /repo itself; runs
+    # against a scratch checkout (EASYML_REPO, used for seeded changes) write elsewhere
+    ev_dir = EVIDENCE if os.path.abspath(REPO) == "/repo" else os.path.join(WORK, "evidence-scratch")
+    os.makedirs(ev_dir, exist_ok=True)
+    with open(os.path.join(ev_dir, pid + ".json"), "w") as f:
         json.dump(ev, f, indent=1)
 
     for l in sorted(set(known_lines)):
@@ -658,16 +717,18 @@ def check(pid, tier, seed):
 def replay(path):
     payload = json.load(open(path))
     pid = payload["property"]
-    if "ops" not in payload:
+    if "ops" not in payload or payload.get("replay_argv"):
         log(json.dumps(payload, indent=1))
         if payload.get("replay_argv"):
-            rc, out, err = sh(payload["replay_argv"], cwd=ROOT, check=False)
+            rc, out, err = sh(payload["replay_argv"] + [os.path.abspath(path)], cwd=ROOT, check=False)
             log(out + err)
             return rc
         return 0
-    bin_path = build_harness()
+    proto = payload.get("protocol_property", pid)
+    OWNER[0] = pid
+    bin_path = build_harness(proto)
     lake_build(["emlmodel"])
-    rc, il, ml = rerun_pair(bin_path, pid, payload["ops"], "replay")
+    rc, il, ml = rerun_pair(bin_path, proto, payload["ops"], "replay")
     bad = 0
     for i, op in enumerate(payload["ops"]):
         a = il[i] if i < len(il) else f"<process died rc={rc}>"
@@ -687,7 +748,7 @@ def setup():
         log(out[-6000:])
         raise MachineryError("lake build failed")
     log(f"lake build ok ({time.time() - t0:.0f}s)")
-    build_harness()
+    build_harness(None)
     log(f"harness build ok ({time.time() - t0:.0f}s)")
     for pid in all_property_ids():
         reg = load_registry(pid)
